@@ -28,7 +28,7 @@ Proof. intros Hc Ha Hr. repeat split; intros k r H; left; congruence. Qed.
 Lemma prov_delete_access Src x k : prov Src x (delete_access x k).
 Proof. repeat split; cbn; intros k' r H; auto. upd_case k' k; [discriminate|auto]. Qed.
 Lemma prov_revoke_access Src x X : prov Src x (revoke_access x X).
-Proof. unfold revoke_access. destruct (at_idx x X); [apply prov_delete_access|apply prov_refl]. Qed.
+Proof. unfold revoke_access. repeat split; cbn; intros k' r H; auto. apply drop_rid_some in H as [H _]. auto. Qed.
 Lemma prov_delete_refresh Src x k : prov Src x (delete_refresh x k).
 Proof. repeat split; cbn; intros k' r H; auto. upd_case k' k; [discriminate|auto]. Qed.
 Lemma prov_revoke_refresh Src x X : prov Src x (fst (revoke_refresh x X)).
@@ -186,8 +186,8 @@ Proof.
   - intros k Hk. rewrite upd_neq by lia. reflexivity.
 Qed.
 
-Lemma decide_tables cfg s dev acc g ga sub :
-  let s' := fst (decide cfg s dev acc g ga sub) in
+Lemma decide_tables cfg s dev acc g ga sub fr :
+  let s' := fst (decide cfg s dev acc g ga sub fr) in
   codes (st s') = codes (st s) /\ access (st s') = access (st s) /\ refresh (st s') = refresh (st s) /\
   pkce (st s') = pkce (st s) /\ next_rid s' = next_rid s /\ next_key s' = next_key s /\ log s' = log s /\
   (forall k b r, device (st s') k = Some (b, r) -> exists b0 r0, device (st s) k = Some (b0, r0) /\ r_id r0 = r_id r) /\
@@ -312,8 +312,9 @@ Proof.
   - match goal with |- context [push cfg s ?x1 ?x2 ?x3 ?x4] => destruct (push_tables cfg s x1 x2 x3 x4) as [Hc [Ha [Hr _]]] end. now apply prov_eq_tables.
   - apply prov_authorize_par.
   - match goal with |- context [device_authorize cfg s ?x1 ?x2 ?x3 ?x4] => destruct (device_authorize_tables cfg s x1 x2 x3 x4) as [Hc [Ha [Hr _]]] end. now apply prov_eq_tables.
-  - match goal with |- context [decide cfg s ?x1 ?x2 ?x3 ?x4 ?x5] => destruct (decide_tables cfg s x1 x2 x3 x4 x5) as [Hc [Ha [Hr _]]] end. now apply prov_eq_tables.
+  - match goal with |- context [decide cfg s ?x1 ?x2 ?x3 ?x4 ?x5 ?x6] => destruct (decide_tables cfg s x1 x2 x3 x4 x5 x6) as [Hc [Ha [Hr _]]] end. now apply prov_eq_tables.
   - apply prov_device_poll.
+  - apply prov_refl.
 Qed.
 
 Lemma grant_tokens_next_rid s stored w : next_rid (fst (grant_tokens s stored w)) = next_rid s.
@@ -458,7 +459,7 @@ Proof.
     repeat match goal with |- context [if ?c then fail _ _ else _] => destruct c; [gr|] end.
     eapply grows_trans; [apply grows_set_store|apply grows_authorize_core].
   - match goal with |- context [device_authorize cfg s ?x1 ?x2 ?x3 ?x4] => destruct (device_authorize_tables cfg s x1 x2 x3 x4) as [_ [_ [_ [_ [Hr [Hk [Hl _]]]]]]] end. repeat split; assumption.
-  - match goal with |- context [decide cfg s ?x1 ?x2 ?x3 ?x4 ?x5] => destruct (decide_tables cfg s x1 x2 x3 x4 x5) as [_ [_ [_ [_ [Hr [Hk [Hl _]]]]]]] end. now apply grows_eq.
+  - match goal with |- context [decide cfg s ?x1 ?x2 ?x3 ?x4 ?x5 ?x6] => destruct (decide_tables cfg s x1 x2 x3 x4 x5 x6) as [_ [_ [_ [_ [Hr [Hk [Hl _]]]]]]] end. now apply grows_eq.
   - unfold device_poll.
     destruct auth as [c|]; [|gr]. destruct (clients s c) as [cl|]; [|gr].
     destruct (negb (args_has (cl_grants cl) _)); [gr|].
@@ -511,7 +512,7 @@ Proof.
   destruct (String.eqb (az_challenge a) "" && String.eqb (az_method a) ""); cbn; congruence.
 Qed.
 Lemma revoke_access_device x X : device (revoke_access x X) = device x.
-Proof. unfold revoke_access. destruct (at_idx x X); reflexivity. Qed.
+Proof. reflexivity. Qed.
 Lemma revoke_refresh_device x X : device (fst (revoke_refresh x X)) = device x.
 Proof. unfold revoke_refresh. destruct (rt_idx x X) as [k|]; [destruct (refresh x k) as [[? ?]|]|]; reflexivity. Qed.
 Lemma invalidate_code_device x k : device (fst (invalidate_code x k)) = device x.
@@ -549,7 +550,7 @@ Proof.
       match goal with |- context [grant_tokens ?s2 ?stored ?w] =>
         pose proof (grant_tokens_device s2 stored w) as G; destruct (grant_tokens s2 stored w) as [s3 minted] end.
       cbn in *. rewrite G, invalidate_code_device. assumption.
-    + cbn. now rewrite revoke_refresh_device, revoke_access_device.
+    + cbn. now rewrite ?revoke_refresh_device, ?revoke_access_device.
   - apply dev_keeps_eq. unfold refresh_flow.
     destruct auth as [c|]; [|reflexivity].
     destruct (clients s c) as [cl|]; [|reflexivity].
@@ -561,13 +562,13 @@ Proof.
       destruct (revoke_refresh (st s) (r_id r)) as [st1 [e|]]; cbn [fst] in *; [cbn; assumption|].
       match goal with |- context [grant_tokens ?s2 ?stored ?w] =>
         pose proof (grant_tokens_device s2 stored w) as G; destruct (grant_tokens s2 stored w) as [s3 minted] end.
-      cbn in *. now rewrite G, revoke_access_device.
-    + cbn. now rewrite revoke_access_device, revoke_refresh_device.
+      cbn in *. now rewrite G, ?revoke_access_device.
+    + cbn. now rewrite ?revoke_access_device, ?revoke_refresh_device.
   - apply dev_keeps_eq. unfold revoke.
     destruct auth as [c|]; [|reflexivity].
     destruct (clients s c); [|reflexivity].
     destruct (revoke_lookup s (key_of s tok) h) as [r|]; [|reflexivity].
-    destruct (negb (Nat.eqb (r_client r) c)); [reflexivity|]. cbn. now rewrite revoke_access_device, revoke_refresh_device.
+    destruct (negb (Nat.eqb (r_client r) c)); [reflexivity|]. cbn. now rewrite ?revoke_access_device, ?revoke_refresh_device.
   - apply dev_keeps_eq.
     match goal with |- context [push cfg s ?x1 ?x2 ?x3 ?x4] => destruct (push_tables cfg s x1 x2 x3 x4) as [_ [_ [_ [Hd _]]]] end. assumption.
   - apply dev_keeps_eq. unfold authorize_par.
@@ -580,8 +581,8 @@ Proof.
     intros k b r H. destruct (Nat.lt_ge_cases k (next_key s)) as [Hlt|Hge].
     + left. rewrite (Hold k Hlt) in H. eauto.
     + destruct (Hd k b r H); [left; eauto|right; split; assumption].
-  - match goal with |- context [decide cfg s ?x1 ?x2 ?x3 ?x4 ?x5] =>
-      destruct (decide_tables cfg s x1 x2 x3 x4 x5) as [_ [_ [_ [_ [_ [_ [_ [Hd _]]]]]]]] end.
+  - match goal with |- context [decide cfg s ?x1 ?x2 ?x3 ?x4 ?x5 ?x6] =>
+      destruct (decide_tables cfg s x1 x2 x3 x4 x5 x6) as [_ [_ [_ [_ [_ [_ [_ [Hd _]]]]]]]] end.
     intros k b r H. left. exact (Hd k b r H).
   - unfold device_poll.
     destruct auth as [c|]; [|apply dev_keeps_eq; reflexivity]. destruct (clients s c) as [cl|]; [|apply dev_keeps_eq; reflexivity].
@@ -651,7 +652,7 @@ Proof.
     repeat split; [exact Ha| | |].
     + intros k r H. rewrite Tr in H. exact (revoke_refresh_no_active s X I k r H).
     + intros k r H. rewrite Tc, Tc' in H. eauto.
-    + intros k b r H. rewrite revoke_access_device, revoke_refresh_device in H. eauto.
+    + intros k b r H. rewrite ?revoke_access_device, ?revoke_refresh_device in H. eauto.
   - pose proof (Inv_revoke_access s X I) as I1.
     pose proof (revoke_refresh_no_active (set_store s (revoke_access (st s) X)) X I1) as Hr. cbn in Hr.
     destruct (revoke_refresh_tables (revoke_access (st s) X) X) as [Tc [Ta _]].
@@ -659,7 +660,7 @@ Proof.
     repeat split; [|exact Hr| |].
     + intros k r H. rewrite Ta in H. exact (revoke_access_no_access s X I k r H).
     + intros k r H. rewrite Tc, Tc' in H. eauto.
-    + intros k b r H. rewrite revoke_refresh_device, revoke_access_device in H. eauto.
+    + intros k b r H. rewrite ?revoke_refresh_device, ?revoke_access_device in H. eauto.
 Qed.
 
 (* replay of a used authorization code by an authenticated client registered for the grant *)
@@ -773,9 +774,13 @@ Lemma revoke_access_frame s X k :
   Inv s -> (forall kd, owner s k <> Some (kd, X)) ->
   access (revoke_access (st s) X) k = access (st s) k /\ implicit (revoke_access (st s) X) k = implicit (st s) k.
 Proof.
-  intros I Ho. unfold revoke_access. destruct (at_idx (st s) X) as [k0|] eqn:E; [|auto].
-  assert (k <> k0) by (intros ->; destruct (inv_at_idx_owner s I _ _ E) as [H|H]; eapply Ho; exact H).
-  cbn. rewrite !upd_neq by assumption. auto.
+  intros I Ho. unfold revoke_access. cbn. unfold drop_rid. split.
+  - destruct (access (st s) k) as [r|] eqn:E; [|reflexivity].
+    destruct (Nat.eqb_spec (r_id r) X) as [Hx|]; [|reflexivity].
+    exfalso. apply (Ho KAccess). rewrite <- Hx. exact (inv_owner_access s I _ _ E).
+  - destruct (implicit (st s) k) as [r|] eqn:E; [|reflexivity].
+    destruct (Nat.eqb_spec (r_id r) X) as [Hx|]; [|reflexivity].
+    exfalso. apply (Ho KImplicit). rewrite <- Hx. exact (inv_owner_implicit s I _ _ E).
 Qed.
 Lemma revoke_refresh_frame s X k :
   Inv s -> owner s k <> Some (KRefresh, X) -> refresh (fst (revoke_refresh (st s) X)) k = refresh (st s) k.
